@@ -138,7 +138,7 @@ def _is_ctxmgr(fn: ast.FunctionDef) -> bool:
         return True
       if isinstance(st, ast.With) and reach(st.body):
         return True
-      if isinstance(st, ast.Try) and not st.handlers and not st.orelse and reach(st.body):
+      if isinstance(st, ast.Try) and not st.orelse and reach(st.body):
         return True
     return False
   return reach(body)
@@ -705,7 +705,7 @@ class _Inliner:
             mid.append(ast.copy_location(ast.Assign(targets=[st.items[0].optional_vars],
                                                     value=y.value if y.value is not None else ast.Constant(value=None)), st))
           return stmts[:i] + mid + list(st.body) + stmts[i + 1:]
-        if isinstance(s_, (ast.Try, ast.With)) and not getattr(s_, 'handlers', []) \
+        if isinstance(s_, (ast.Try, ast.With)) and not getattr(s_, 'orelse', []) \
             and any(isinstance(x, ast.Yield) for b_ in s_.body for x in ast.walk(b_)):
           inner = splice(list(s_.body))
           if inner is None:
@@ -885,6 +885,221 @@ class _Inliner:
     return out or [ast.copy_location(ast.Pass(), st)]
 
 
+# --------------------------------------------------------------------------- literal-loop unrolling
+_UNROLL_MAX_ELEMS = 6
+_UNROLL_MAX_BODY = 10
+
+
+def _simple_elem(e: ast.AST) -> bool:
+  if isinstance(e, (ast.Name, ast.Constant)):
+    return True
+  if isinstance(e, ast.Attribute):
+    return _simple_elem(e.value)
+  if isinstance(e, ast.Tuple):
+    return all(_simple_elem(x) for x in e.elts)
+  return False
+
+
+class _Rename(ast.NodeTransformer):
+  def __init__(self, m: Dict[str, ast.AST]):
+    self.m = m
+
+  def visit_Name(self, n: ast.Name):
+    if n.id in self.m:
+      r = self.m[n.id]
+      if isinstance(r, str):
+        return ast.copy_location(ast.Name(id=r, ctx=n.ctx), n)
+      if isinstance(n.ctx, ast.Load):
+        return ast.copy_location(copy.deepcopy(r), n)
+    return n
+
+
+def _stmts_assigned(stmts: List[ast.stmt]) -> Set[str]:
+  return {x.id for st in stmts for x in ast.walk(st) if isinstance(x, ast.Name) and isinstance(x.ctx, ast.Store)}
+
+
+def _read_before_write(stmts: List[ast.stmt], names: Set[str]) -> bool:
+  """True if some name of `names` may be read in `stmts` before it is written (loop-carried)."""
+  written: Set[str] = set()
+  for st in stmts:
+    if not isinstance(st, (ast.Assign, ast.AnnAssign, ast.Expr)):
+      # compound statement: any read of a not-yet-written name anywhere inside counts
+      for x in ast.walk(st):
+        if isinstance(x, ast.Name) and isinstance(x.ctx, ast.Load) and x.id in names and x.id not in written:
+          return True
+      written |= set()
+      continue
+    val = st.value
+    if val is not None:
+      for x in ast.walk(val):
+        if isinstance(x, ast.Name) and isinstance(x.ctx, ast.Load) and x.id in names and x.id not in written:
+          return True
+    tg = st.targets if isinstance(st, ast.Assign) else [st.target] if isinstance(st, ast.AnnAssign) else []
+    for t in tg:
+      for x in ast.walk(t):
+        if isinstance(x, ast.Name) and isinstance(x.ctx, ast.Load) and x.id in names and x.id not in written:
+          return True
+      if isinstance(t, ast.Name):
+        written.add(t.id)
+  return False
+
+
+def _literal_elements(fn: ast.FunctionDef, loop: ast.For) -> Optional[List[ast.AST]]:
+  """Elements of the loop's iterable if it is a short literal tuple/list of simple expressions, or a local
+  bound once to such a literal and only ever extended by straight-line `.append(<simple>)` before the loop."""
+  it = loop.iter
+  if isinstance(it, (ast.Tuple, ast.List)):
+    return list(it.elts) if 0 < len(it.elts) <= _UNROLL_MAX_ELEMS and all(_simple_elem(e) for e in it.elts) else None
+  if not isinstance(it, ast.Name):
+    return None
+  name = it.id
+  init: Optional[ast.Assign] = None
+  elems: List[ast.AST] = []
+  uses = 0
+
+  def scan(stmts: List[ast.stmt]) -> Optional[bool]:
+    """Walks the statement chain towards the loop; returns True when the loop was reached, None to give up."""
+    nonlocal init, elems, uses
+    for st in stmts:
+      if st is loop:
+        return True
+      mentions = [x for x in ast.walk(st) if isinstance(x, ast.Name) and x.id == name]
+      if isinstance(st, ast.Assign) and len(st.targets) == 1 and isinstance(st.targets[0], ast.Name) \
+          and st.targets[0].id == name:
+        if init is not None or not isinstance(st.value, (ast.Tuple, ast.List)) or len(mentions) != 1:
+          return None
+        init, elems = st, list(st.value.elts)
+        uses += 1
+        continue
+      if isinstance(st, ast.Expr) and isinstance(st.value, ast.Call) and isinstance(st.value.func, ast.Attribute) \
+          and st.value.func.attr == 'append' and isinstance(st.value.func.value, ast.Name) \
+          and st.value.func.value.id == name and len(st.value.args) == 1 and not st.value.keywords \
+          and init is not None and isinstance(init.value, ast.List):
+        if len(mentions) != 1:
+          return None
+        elems.append(st.value.args[0])
+        uses += 1
+        continue
+      inner = [b for b in (getattr(st, 'body', None), getattr(st, 'orelse', None), getattr(st, 'finalbody', None))
+               if isinstance(b, list)]
+      contains = any(x is loop for x in ast.walk(st))
+      if contains and isinstance(st, (ast.With, ast.Try, ast.If)) and not isinstance(st, (ast.For, ast.While)):
+        # descend only along the chain leading to the loop; other mentions on the way give up
+        others = [x for x in mentions if not any(x is y for y in ast.walk(loop))]
+        hdr = [x for x in others]
+        for b in inner:
+          if any(y is loop for z in b for y in ast.walk(z)):
+            pre_mentions = 0
+            r = scan(b)
+            return r
+        return None
+      if mentions:
+        return None
+    return False
+
+  r = scan(fn.body)
+  if r is not True or init is None:
+    return None
+  # the list must not be mentioned anywhere else (after the loop, in nested defs, ...)
+  total = sum(1 for x in ast.walk(fn) if isinstance(x, ast.Name) and x.id == name)
+  if total != uses + 1:
+    return None
+  if not (0 < len(elems) <= _UNROLL_MAX_ELEMS) or not all(_simple_elem(e) for e in elems):
+    return None
+  return elems
+
+
+def _unroll_in_function(fn: ast.FunctionDef, counter: List[int]) -> int:
+  n = 0
+
+  def do_block(stmts: List[ast.stmt]) -> List[ast.stmt]:
+    nonlocal n
+    out: List[ast.stmt] = []
+    for st in stmts:
+      for fld in ('body', 'orelse', 'finalbody'):
+        b = getattr(st, fld, None)
+        if isinstance(b, list) and not isinstance(st, (ast.FunctionDef, ast.AsyncFunctionDef, ast.ClassDef)):
+          setattr(st, fld, do_block(b))
+      if isinstance(st, ast.Try):
+        for h in st.handlers:
+          h.body = do_block(h.body)
+      if not (isinstance(st, ast.For) and not st.orelse and len(st.body) <= _UNROLL_MAX_BODY):
+        out.append(st)
+        continue
+      if any(isinstance(x, (ast.Break, ast.Continue, ast.Return, ast.Yield, ast.YieldFrom, ast.FunctionDef, ast.Lambda,
+                            ast.ListComp, ast.DictComp, ast.SetComp, ast.GeneratorExp, ast.Global, ast.Nonlocal))
+             for b in st.body for x in ast.walk(b)):
+        out.append(st)
+        continue
+      tnames = [x.id for x in ast.walk(st.target) if isinstance(x, ast.Name)]
+      if not (isinstance(st.target, ast.Name) or (isinstance(st.target, ast.Tuple)
+                                                   and all(isinstance(e, ast.Name) for e in st.target.elts))):
+        out.append(st)
+        continue
+      elems = _literal_elements(fn, st)
+      if elems is None:
+        out.append(st)
+        continue
+      if isinstance(st.target, ast.Tuple) and not all(isinstance(e, ast.Tuple) and len(e.elts) == len(st.target.elts)
+                                                      for e in elems):
+        out.append(st)
+        continue
+      assigned = _stmts_assigned(st.body) - set(tnames)
+      if _read_before_write(st.body, assigned) or (assigned & set(tnames)):
+        out.append(st)
+        continue
+      # loop variable used after the loop?  keep the last binding
+      last_map: Dict[str, str] = {}
+      for k, e in enumerate(elems):
+        counter[0] += 1
+        tag = counter[0]
+        m: Dict[str, ast.AST] = {}
+        if isinstance(st.target, ast.Name):
+          m[st.target.id] = e
+        else:
+          for tn, ee in zip(st.target.elts, e.elts):
+            m[tn.id] = ee
+        for a in assigned:
+          m[a] = f'{a}__u{tag}'
+          last_map[a] = f'{a}__u{tag}'
+        for b in st.body:
+          nb = _Rename(m).visit(copy.deepcopy(b))
+          ast.fix_missing_locations(nb)
+          out.append(nb)
+      for a, r in sorted(last_map.items()):
+        out.append(ast.copy_location(ast.Assign(targets=[ast.Name(id=a, ctx=ast.Store())],
+                                                value=ast.Name(id=r, ctx=ast.Load()), lineno=st.lineno), st))
+      for tn in tnames:
+        # the loop variable keeps its last value
+        last = elems[-1] if isinstance(st.target, ast.Name) else elems[-1].elts[tnames.index(tn)]
+        out.append(ast.copy_location(ast.Assign(targets=[ast.Name(id=tn, ctx=ast.Store())],
+                                                value=copy.deepcopy(last), lineno=st.lineno), st))
+      for x in out[-(len(last_map) + len(tnames)):]:
+        ast.fix_missing_locations(x)
+      n += 1
+    return out
+
+  fn.body = do_block(fn.body)
+  return n
+
+
+def _unroll_literal_loops(tree: ast.Module) -> int:
+  """`for x in (a, b, c): BODY` with a short literal iterable (or a local list built by straight-line appends)
+  and a break/continue-free body whose temporaries are written before read becomes BODY[a]; BODY[b]; BODY[c].
+  The loop body's temporaries get per-iteration names so later statement lists can refer to each of them."""
+  n = 0
+  counter = [0]
+  for x in ast.walk(tree):
+    if isinstance(x, ast.FunctionDef):
+      # two passes: the first may turn `L.append(q)` inside a loop into straight-line appends
+      for _ in range(2):
+        k = _unroll_in_function(x, counter)
+        n += k
+        if not k:
+          break
+  return n
+
+
 # --------------------------------------------------------------------------- alias propagation
 def _propagate_param_aliases(fn: ast.FunctionDef) -> int:
   """`x = <param>.<a>.<b>` at the top level of a function, x never re-bound, the parameter never re-bound:
@@ -941,6 +1156,7 @@ def normalise(tree: ast.Module, exclude: Optional[Set[str]] = None) -> int:
   ex = anchors() if exclude is None else exclude
   inl = _Inliner(tree, ex)
   n = inl.run()
+  n += _unroll_literal_loops(tree)
   for x in ast.walk(tree):
     if isinstance(x, ast.FunctionDef):
       n += _propagate_param_aliases(x)
